@@ -8,7 +8,7 @@ From TLV Require Import Base.Ops Model.Prox Proofs.ProxProofs Proofs.ProxProofsH
   Proofs.ProxProofsSmooth Proofs.ProxProofsFirm Proofs.ProxProofsNormSp Proofs.ProxProofsUni
   Base.Tensor Model.Constraints Proofs.ConstraintsProofsKeys Model.ProxDispatch Proofs.ProxProofsDispatch
   Proofs.ProxProofsMore Proofs.ProxProofsMatrix Proofs.ProxProofsRun Proofs.ProxRunTransfer
-  Base.RSum Proofs.ProxProofsSvt Proofs.ProxProofsSvtList.
+  Base.RSum Proofs.ProxProofsSvt Proofs.ProxProofsSvtList Proofs.ProxProofsFirm2.
 Import ListNotations.
 Open Scope R_scope.
 
@@ -283,6 +283,16 @@ Theorem C12_normalized_sparsity_idempotent : forall s k v, 0 < s -> s * s = sums
   normalized_sparsity_with Rops 1 k (normalized_sparsity_with Rops s k v) = normalized_sparsity_with Rops s k v.
 Proof. exact normalized_sparsity_idempotent. Qed.
 Print Assumptions C12_normalized_sparsity_idempotent.
+
+Theorem C12_soft_arr_firmly_nonexpansive : forall ts u v, Forall (fun t => 0 <= t) ts -> length ts = length u -> length u = length v ->
+  dist2 Rops (soft_thresholding_arr Rops ts u) (soft_thresholding_arr Rops ts v)
+  <= dotd (soft_thresholding_arr Rops ts u) (soft_thresholding_arr Rops ts v) u v.
+Proof. exact soft_arr_firmly_nonexpansive. Qed.
+Print Assumptions C12_soft_arr_firmly_nonexpansive.
+Theorem C12_l1ball_outside_idempotent : forall p v, 0 < p -> p <= l1n Rops v ->
+  soft_sparsity_prox Rops p (soft_sparsity_prox Rops p v) = soft_sparsity_prox Rops p v.
+Proof. exact l1ball_outside_idempotent. Qed.
+Print Assumptions C12_l1ball_outside_idempotent.
 
 (* ---- matrices: the code applies the operators column by column (colwise) or on the flattened tensor (flatwise); for a rectangular
    n x c matrix the columns of colwise f X are f of the columns of X and the flattening of flatwise f X is f of the flattening,
